@@ -16,12 +16,13 @@ from harness import c19_ext as X
 
 PROP = 'C19'
 MODEL_MODULES = ['TenpyModel.Util.J', 'TenpyModel.C19.Order', 'TenpyModel.C19.Lattice', 'TenpyModel.C19.Couplings',
-                 'TenpyModel.C19.Variants', 'TenpyModel.C19.Ext']
+                 'TenpyModel.C19.Variants', 'TenpyModel.C19.Ext', 'TenpyModel.C19.ExtBC']
 PROPS_MODULES = ['TenpyModel.C19.PropsOrder', 'TenpyModel.C19.PropsIndex', 'TenpyModel.C19.PropsCouplings',
                  'TenpyModel.C19.PropsMulti', 'TenpyModel.C19.PropsVariants', 'TenpyModel.C19.PropsPairs', 'TenpyModel.C19.PropsPairsOutside']
 PROPS_MODULES = PROPS_MODULES + ['TenpyModel.C19.Props2']   # second round of theorems (Props2.lean + P2_*.lean)
-# extension round: MultiSpeciesLattice bookkeeping / _generate_new_pairs (A), find_coupling_pairs (B); model Ext.lean
-PROPS_MODULES = PROPS_MODULES + ['TenpyModel.C19.PropsExtA', 'TenpyModel.C19.PropsExtB']
+# extension round: MultiSpeciesLattice bookkeeping / _generate_new_pairs (A), find_coupling_pairs (B); model Ext.lean;
+# the bc argument: boundary_conditions setter / getter / test_sanity checks (C); model ExtBC.lean
+PROPS_MODULES = PROPS_MODULES + ['TenpyModel.C19.PropsExtA', 'TenpyModel.C19.PropsExtB', 'TenpyModel.C19.PropsExtC']
 LEAN_MODULES = PROPS_MODULES
 LEVEL = 'proof'
 BUDGET = {'quick': 170, 'thorough': 1700}
@@ -38,11 +39,13 @@ RULE = ('A case = lattice class (Chain, Ladder, NLegLadder, Square, Triangular, 
         'variant); distinct by content hash. Extension part (harness/c19_ext.py): MultiSpeciesLattice over every predefined class x '
         '1-4 species x plain/default/colliding/odd/wrong-number name lists (pairs dict, u maps, positions, unit cell, count_neighbors) '
         'and find_coupling_pairs on generic lattices with integer basis (dim 1-3), 1-3 sites, max_dx 0-3, default/explicit/too-large '
-        'cutoff, zero basis vectors; non-trivial: >= 2 species resp. max_dx >= 1.')
+        'cutoff, zero basis vectors; the bc argument (one string / lists and tuples of open, periodic, int shifts, dim 1-3, malformed: '
+        'unknown strings, shift in x, wrong lengths, open x with an infinite MPS) through the boundary_conditions setter, getter and '
+        'Lattice.__init__; non-trivial: >= 2 species resp. max_dx >= 1 resp. a list argument with dim >= 2.')
 TRUSTED = ['Lean 4.33 kernel; axioms of every C19_* theorem within {propext, Classical.choice, Quot.sound}',
            'hand-written model lean/TenpyModel/C19/{Order,Lattice,Couplings,Variants}.lean, tied to '
            'tenpy/models/lattice.py by this correspondence run (identical cases, answers diffed exactly)',
-           'extension model lean/TenpyModel/C19/Ext.lean (MultiSpecies bookkeeping, find_coupling_pairs in exact integer '
+           'extension models lean/TenpyModel/C19/{Ext,ExtBC}.lean (MultiSpecies bookkeeping, bc argument, find_coupling_pairs in exact integer '
            'arithmetic: cutoff c stands for a float cutoff sqrt(c+0.5)), tied by harness/c19_ext.py',
            'tools/gen_C19.py (AST translator of the pairs/positions tables) and the JSON driver',
            'np.lexsort modelled by List.mergeSort (stable); np.argsort only used with distinct keys',
